@@ -378,6 +378,11 @@ def diff_function(ref_fn, cur_fn):
         if rec[0] == 'assign' or rec[0].startswith('aug'):
             for t in rec[1][:-1]:
                 cur_written.add(src(t).replace(' ', ''))
+        elif rec[0] == 'for':
+            # a counter that became the loop variable of a `for` is still advanced
+            for x in ast.walk(rec[1][0]):
+                if isinstance(x, ast.Name):
+                    cur_written.add(x.id)
     cur_names = set()
     for rec in C:
         for comp in rec[1]:
